@@ -44,6 +44,26 @@ def unserved_is_a_sum(ctx, rid):
         ctx.decide(o, ok, "component 0 + component 1", "the two deficit components are not added (e.g. combined with max)")
 
 
+def formation_getters(ctx, rid="R2"):
+    """the formation's seats are the sum of its vehicles' seats, its capacity the sum of their capacities (shared with C04)"""
+    VEH = "solution::vehicle::Vehicle"
+    for fn, own, other in (("seats", "seats", "capacity"), ("capacity", "capacity", "seats")):
+        key = TRAINF + "::" + fn
+        o, fd = ctx.require_fn("%s.formation-%s-sums-%s" % (rid, fn, own), "T1", key, "TrainFormation::%s sums Vehicle::%s" % (fn, own))
+        if fd is None:
+            continue
+        direct = set()
+        for k2 in ctx.prog.family(key):
+            direct |= {c.callee for c in ctx.prog.bodies[k2].calls()}
+        if VEH + "::" + other in direct and VEH + "::" + own not in direct:
+            ctx.bad(o, "TrainFormation::%s adds up Vehicle::%s: the %s shortfall that the objective minimises is computed from the wrong figure" % (
+                fn, other, "seated-passenger" if fn == "seats" else "passenger"))
+        elif VEH + "::" + own in direct:
+            ctx.ok(o, "sums Vehicle::%s" % own)
+        else:
+            ctx.undecided(o, "no direct call of a Vehicle figure")
+
+
 def required_vehicles_pairing(ctx, rid="R2"):
     """shared with C14 (the lower bound of a trip arc)"""
     # requirement function: per-quantity pairing passengers/capacity, seated/seats
@@ -108,6 +128,7 @@ def rules(ctx):
     flownet.need(ctx, "R1.trip-lower-bound", edges, "trip", "lower_bound", [call(REQ), call(MFC), "param:2"],
                  "trip edges must carry min(required vehicles, applicable formation limit of that trip)")
     required_vehicles_pairing(ctx)
+    formation_getters(ctx)
     limit_combination(ctx)
     objective.level_order(ctx, "R3")
     unserved_is_a_sum(ctx, "R3")
